@@ -143,7 +143,7 @@ impl Prop for C05 {
         "C05"
     }
     fn cases(&self, ctx: &Ctx) -> u64 {
-        ctx.tier.pick(2500, 60_000)
+        ctx.tier.pick(20_000, 300_000)
     }
     fn rule(&self) -> &'static str {
         "grammar programs whose statements/members, block openers and closers are known by construction (begin/end, repeat/until, try sections, case-else, const/var/type sections, class/record bodies and visibility sections, anonymous routine bodies) in canonical, one-line, one-token-per-line and random layouts with comments and directives between statements x widths 20..huge x begin_style; marked tokens are found in the output by non-blank ordinal; oracle: each item is first on its line at (opener line indentation + one unit), closers first on their line at the opener line's indentation, always_wrap begins alone at the header's indentation. Non-trivial: program has nesting depth >= 2 and >= 5 marked items; distinct by hash of block kinds/sizes + configuration."
